@@ -301,6 +301,13 @@ func pointInputs(r *vh.Rng, in grpprog.Inst, thorough bool, nvalid, nflip int) [
 		}
 	}
 	ins = append(ins, altFormats(r, in, valid, nvalid)...)
+	// congruent-to-valid non-canonical coordinates: of the valid points and of the points with the smallest coordinates
+	small := smallPoints(in, nvalid)
+	for _, v := range small {
+		ins = append(ins, input{"valid/small-x", v})
+	}
+	ins = append(ins, congruentInputs(l, append(append([][]byte{}, valid...), small...), size)...)
+	ins = append(ins, congruentIdentity(l, in, size)...)
 	if rp, ok := resParams[in.Name]; ok {
 		ins = append(ins, residueSpecials(r, rp, size, nvalid+2)...)
 	}
